@@ -465,6 +465,11 @@ func (r *Rect) decode(d *decoder) {
 	r.Lat.Hi = d.readFloat64()
 	r.Lng.Lo = d.readFloat64()
 	r.Lng.Hi = d.readFloat64()
+	// NaN, infinite or out-of-range bounds would make later queries on the
+	// rectangle panic in the exact predicates.
+	if d.err == nil && !r.IsValid() {
+		d.err = fmt.Errorf("invalid rectangle lat [%v, %v] lng [%v, %v]", r.Lat.Lo, r.Lat.Hi, r.Lng.Lo, r.Lng.Hi)
+	}
 }
 
 // DistanceToLatLng returns the minimum distance (measured along the surface of the sphere)
